@@ -1249,13 +1249,16 @@ func valueFromIndex(info *mapper.Info, columnKeys []model.ColumnKey) (interface{
 			if err != nil {
 				return "", err
 			}
-			// if object is nil dont try to encode it
+			// a missing value (nil, or the nil pointer of an optional column
+			// without value) is not encoded itself, but its absence is: the
+			// values (x, none) and (none, x) of two columns are different
 			value := reflect.ValueOf(val)
-			if value.Kind() == reflect.Invalid {
-				continue
+			present := value.Kind() != reflect.Invalid && !(value.Kind() == reflect.Pointer && value.IsNil())
+			err = enc.Encode(present)
+			if err != nil {
+				return "", err
 			}
-			// if object is a nil pointer dont try to encode it
-			if value.Kind() == reflect.Pointer && value.IsNil() {
+			if !present {
 				continue
 			}
 			err = enc.Encode(val)
